@@ -95,8 +95,7 @@ def _vec2(h, name):
     return [h.real('%s_%d' % (name, k)) for k in range(2)]
 
 
-@contract('C08/Powell._Step/generation>1,N=2', ['C08'], PW + '._Step', native=False)
-def powell_later(h):
+def _powell_iteration(h, later):
     """Powell's direction-set method, one iteration at dimension 2, step for step against the textbook (Appendix A.6) with
     the SAME abstract line search on both sides.  LS(p, xi) = some real step length alpha (an uninterpreted function of
     the two vectors); the line search returns (F(p + alpha xi), p + alpha xi, alpha xi) -- its assumed contract (scipy's
@@ -119,11 +118,12 @@ def powell_later(h):
     xa = h.clist(list(x), nd=True)
     x1a = h.clist(list(x1), nd=True)
     direc = h.clist([h.clist(list(d[0]), nd=True), h.clist(list(d[1]), nd=True)], nd=True)
-    stepmon = h.obj(MON, _x=h.clist([0.0, 0.0, 0.0]), _y=h.clist([3.0, 2.0, 1.0]), _id=h.clist([]), _info=h.clist([]), k=None, _npts=None, label='s')
+    nrec = 3 if later else 1
+    stepmon = h.obj(MON, _x=h.clist([0.0] * nrec), _y=h.clist([3.0, 2.0, 1.0][:nrec]), _id=h.clist([]), _info=h.clist([]), k=None, _npts=None, label='s')
     s = h.obj(PW, nDim=N, nPop=1, population=h.clist([xa]), popEnergy=h.clist([fval]), _bestSolution=None, _bestEnergy=None,
               _stepmon=stepmon, _useStrictRange=False, _constraints=cons, _strictbounds=cons, _direc=direc,
               xtol=1e-4, imax=500, id=None, _termination=h.fn('TERMINATION', ret='bool'), _maxiter=100,
-              _energy_history=h.clist([3.0, 2.0, 1.0]), _solution_history=None,
+              _energy_history=h.clist([3.0, 2.0, 1.0]) if later else None, _solution_history=None,
               _PowellDirectionalSolver__internals=h.clist([x1a, fx, bigind, delta]))
     order = {'processed': False}
 
@@ -165,11 +165,13 @@ def powell_later(h):
     def CONS(p):
         r = h.call(h.fn('CONS', ret='same_nd'), V(p))
         return [ev('r[%d]' % k, r=r) for k in range(N)]
+    nx1 = list(x)
+    cx, cf, cd = list(x), fval, [list(d[0]), list(d[1])]
+    if not later:
+        return _powell_first_iteration(h, s, cx, cf, cd, nx1, LS, CONS, V, N)
     d1 = [ev('a - b', a=a, b=b) for a, b in zip(x, x1)]
     x2 = [ev('2 * a - b', a=a, b=b) for a, b in zip(x, x1)]
-    nx1 = list(x)
     fx2 = h.call(Fp, V(x2))
-    cx, cf, cd = list(x), fval, [list(d[0]), list(d[1])]
     t = ev('2.0 * (fx + fx2 - 2.0 * f) * (fx - f - dl) * (fx - f - dl) - dl * (fx - fx2) * (fx - fx2)', fx=fx, fx2=fx2, f=fval, dl=delta)
     took = h.ev('fx > fx2 and t < 0.0', fx=fx, fx2=fx2, t=t)
     tk = h.I.truth_term(took)
@@ -201,3 +203,47 @@ def powell_later(h):
     h.check('C08/bookkeeping-for-the-next-iteration',
             'seq_eq(ints[0], nx1) and ints[1] == nfx and ints[2] == nbig and ints[3] == ndel', **e)
     h.check('C04/callback-once-with-the-best', 'len(cbs) == 1 and seq_eq(cbs[0][0], cx)', **e)
+
+
+def _dloop(h, cx, cf, cd, LS, CONS, N):
+    """line searches along every direction, tracking the largest decrease"""
+    ev = h.ev
+    nbig, ndel = 0, 0.0
+    for i in range(N):
+        f2 = cf
+        cf, cx, _ = LS(cx, cd[i])
+        better = h.I.truth_term(ev('f2 - cf > dl', f2=f2, cf=cf, dl=ndel))
+        if not isinstance(better, bool):
+            better = h.st.branch(better)
+        if better:
+            ndel, nbig = ev('f2 - cf', f2=f2, cf=cf), i
+        cx = CONS(cx)
+    return cx, cf, nbig, ndel
+
+
+def _powell_first_iteration(h, s, cx, cf, cd, nx1, LS, CONS, V, N):
+    """generation 1: no extrapolation yet -- remember the start (x1, fx), search along every direction; the new energy is
+    appended to the (decoupled) energy history, no step-monitor record is written in this iteration (finding F15)"""
+    nfx = cf
+    cx, cf, nbig, ndel = _dloop(h, cx, cf, cd, LS, CONS, N)
+    recs, cbs = h.log('records'), h.log('callback')
+    ints = h.field(s, '_PowellDirectionalSolver__internals')
+    e = dict(s=s, recs=recs, cbs=cbs, ints=ints, cx=V(cx), cf=cf, nx1=V(nx1), nfx=nfx, nbig=nbig, ndel=ndel)
+    h.check('C08/result-of-the-line-searches-along-every-direction',
+            'seq_eq(s.population[0], cx) and s.popEnergy[0] == cf and seq_eq(s.bestSolution, cx) and s.bestEnergy == cf', **e)
+    h.check('C08/bookkeeping-for-the-next-iteration',
+            'seq_eq(ints[0], nx1) and ints[1] == nfx and ints[2] == nbig and ints[3] == ndel', **e)
+    h.check('C04/energy-history-gets-the-new-energy', 'len(s._energy_history) == 2 and s._energy_history[1] == cf', **e)
+    h.check('C04/callback-once-with-the-best', 'len(cbs) == 1 and seq_eq(cbs[0][0], cx)', **e)
+
+
+@contract('C08/Powell._Step/generation>1,N=2', ['C08'], PW + '._Step', native=False)
+def powell_later(h):
+    """Powell's direction-set method, one iteration at dimension 2, step for step against the textbook (Appendix A.6) with
+    the SAME abstract line search on both sides (see _powell_iteration)"""
+    _powell_iteration(h, True)
+
+
+@contract('C08/Powell._Step/generation=1,N=2', ['C08'], PW + '._Step', native=False)
+def powell_first(h):
+    _powell_iteration(h, False)
